@@ -428,6 +428,8 @@ class SQLiteModel(data_algebra.db_model.DBModel):
         join_node_copy_right = copy.copy(join_node)
         join_node_copy_right.jointype = "LEFT"
         join_node_copy_right.sources = [join_node.sources[1], join_node.sources[0]]
+        join_node_copy_right.on_a = join_node.on_b  # keys follow their tables
+        join_node_copy_right.on_b = join_node.on_a
         near_sql_right = data_algebra.db_model.DBModel.natural_join_to_near_sql(
             self,
             join_node=join_node_copy_right,
